@@ -149,6 +149,10 @@ func (w *World) emit(e *Event) {
 		e.Obs = []ViewObs{}
 	}
 	e.Tid = w.tid
+	e.Cnt = clampInt(e.Cnt)
+	for i := range e.Args {
+		e.Args[i] = clampInt(e.Args[i])
+	}
 	if err := w.enc.Encode(e); err != nil {
 		panic(err)
 	}
@@ -156,10 +160,30 @@ func (w *World) emit(e *Event) {
 	w.OpCount[e.Op]++
 }
 
+// Huge stands for any integer beyond +-2^30 (TLC integers are 32-bit and its JSON reader truncates
+// silently, so nothing larger may ever be written to a trace).
+const Huge = 1<<30 - 1
+
+func clampInt(x int) int {
+	if x > Huge {
+		return Huge
+	}
+	if x < -Huge {
+		return -Huge
+	}
+	return x
+}
+
+// harnessBug is a panic raised by the harness itself; it is never reported as a library panic.
+type harnessBug string
+
 // run executes f, converting a panic of the library into a result.
 func run(f func()) (res string) {
 	defer func() {
 		if r := recover(); r != nil {
+			if hb, ok := r.(harnessBug); ok {
+				panic("harness bug: " + string(hb))
+			}
 			res = "panic"
 		}
 	}()
